@@ -112,10 +112,29 @@ func (u *Unit) clientCall(fc *frameCtx, name string, sig *types.Signature, args 
 		u.checkLogAllowed(fc, pc, name, pos)
 	}
 	u.logAppend(st, verb, obj, namespaced, ns)
-	// reads and writes (re)fill the object passed in
+	// Reads (re)fill the whole object passed in. Writes send the object; what comes back differs from what was
+	// sent only in the object's metadata (resourceVersion, generation, uid, timestamps ...): spec and status of the
+	// object in memory stay what the caller put there. (On an error the object is left as it was.)
 	switch verb {
-	case "Get", "List", "Create", "Update", "Patch", "StatusUpdate", "StatusPatch":
+	case "Get", "List":
 		fr := &FrameSpec{Roots: []*Term{c.Root(obj)}}
+		u.checkCalleeFrame(fc, pc, fr, name, pos)
+		u.havoc(st, pc, fr)
+	case "Create", "Update", "Patch", "StatusUpdate", "StatusPatch":
+		fr := &FrameSpec{Roots: []*Term{c.Root(obj)}}
+		if stt := u.ifaceStatic[args[objIdx].T.id]; stt != nil {
+			if pt, ok := stt.Underlying().(*types.Pointer); ok {
+				if sst, ok := pt.Elem().Underlying().(*types.Struct); ok {
+					for i := 0; i < sst.NumFields(); i++ {
+						if sst.Field(i).Name() == "ObjectMeta" {
+							var locs []leafLoc
+							u.leafAddrs(c.Fld(obj, u.e.lay.fieldID(pt.Elem(), sst, i)), sst.Field(i).Type(), &locs)
+							fr = &FrameSpec{Leaves: locs}
+						}
+					}
+				}
+			}
+		}
 		u.checkCalleeFrame(fc, pc, fr, name, pos)
 		u.havoc(st, pc, fr)
 	}
